@@ -114,29 +114,47 @@ Proof.
   exfalso. apply (bitlen_le z n Hn) in H. assert (0 < 2 ^ n) by (apply Z.pow_pos_nonneg; lia). lia.
 Qed.
 
-(* a positive rational n / d through quo_bits *)
-Theorem round_mag_rat_rounds prec emin n d : 0 < prec ->
-  rounds_to prec emin (Zpos n # d)
-    (pairQ (let '(q, e, s) := quo_bits prec n d in round_mag prec emin q e s)).
+(* a positive rational n / d through quo_bits, scaled by 2^j (j = 0 for
+   round_rat, the difference of the exponents for the quotient of two floats) *)
+Lemma quo_bits_value prec n d j : 0 < prec ->
+  let k := Z.max 0 (prec + 2 + bitlen (Zpos d) - bitlen (Zpos n)) in
+  ((Zpos n * 2 ^ k # d) * T (- k + j) == (Zpos n # d) * T j)%Q.
+Proof.
+  intros Hp k. assert (Hk : 0 <= k) by (unfold k; lia).
+  assert (Hd : (0 < inject_Z (Zpos d))%Q) by (apply (inject_Z_lt 0); lia).
+  apply (Qmult_inj_r _ _ (inject_Z (Zpos d) * T k)); [pose proof (T_pos k); intros Hc; nra|].
+  rewrite (T_add (- k) j).
+  setoid_replace ((Z.pos n * 2 ^ k # d) * (T (- k) * T j) * (inject_Z (Z.pos d) * T k))%Q
+    with (((Z.pos n * 2 ^ k # d) * inject_Z (Z.pos d)) * (T (- k) * T k) * T j)%Q by ring.
+  rewrite <- T_add, Qmake_mult. replace (- k + k) with 0 by lia. rewrite T_0.
+  setoid_replace ((Z.pos n # d) * T j * (inject_Z (Z.pos d) * T k))%Q
+    with (((Z.pos n # d) * inject_Z (Z.pos d)) * T k * T j)%Q by ring.
+  rewrite Qmake_mult. rewrite inject_Z_mult, (T_Z k) by lia. ring.
+Qed.
+
+Theorem round_mag_quo_rounds prec emin n d j : 0 < prec ->
+  rounds_to prec emin ((Zpos n # d) * T j)
+    (pairQ (let '(q, e, s) := quo_bits prec n d in round_mag prec emin q (e + j) s)).
 Proof.
   intros Hp. destruct (quo_bits_spec prec n d Hp) as [E [Hq Hk]]. cbn zeta in E, Hq, Hk.
+  pose proof (quo_bits_value prec n d j Hp) as EV. cbn zeta in EV.
   set (k := Z.max 0 (prec + 2 + bitlen (Zpos d) - bitlen (Zpos n))) in *.
   set (a := Zpos n * 2 ^ k) in *. rewrite E.
   assert (Hm : 0 < a / Zpos d).
   { assert (0 < 2 ^ (prec + 1)) by (apply Z.pow_pos_nonneg; lia). lia. }
   assert (Hb : prec < bitlen (a / Zpos d)).
   { apply bitlen_gt; [lia|]. apply Z.le_trans with (2 := Hq). apply Z.pow_le_mono_r; lia. }
-  pose proof (round_mag_rounds prec emin a d (- k) Hp Hm (or_intror Hb)) as H.
-  refine (rounds_to_ext _ _ _ _ _ _ _ (Qeq_refl _) H).
-  (* (a # d) * 2^-k = n / d *)
-  assert (Hd : (0 < inject_Z (Zpos d))%Q) by (apply (inject_Z_lt 0); lia).
-  apply (Qmult_inj_r _ _ (inject_Z (Zpos d) * T k)); [pose proof (T_pos k); intros Hc; nra|].
-  setoid_replace ((a # d) * T (- k) * (inject_Z (Z.pos d) * T k))%Q
-    with (((a # d) * inject_Z (Z.pos d)) * (T (- k) * T k))%Q by ring.
-  rewrite <- T_add, Qmake_mult. replace (- k + k) with 0 by lia. rewrite T_0.
-  setoid_replace ((Z.pos n # d) * (inject_Z (Z.pos d) * T k))%Q
-    with (((Z.pos n # d) * inject_Z (Z.pos d)) * T k)%Q by ring.
-  rewrite Qmake_mult. unfold a. rewrite inject_Z_mult, (T_Z k) by lia. ring.
+  pose proof (round_mag_rounds prec emin a d (- k + j) Hp Hm (or_intror Hb)) as H.
+  exact (rounds_to_ext _ _ _ _ _ _ EV (Qeq_refl _) H).
+Qed.
+
+Theorem round_mag_rat_rounds prec emin n d : 0 < prec ->
+  rounds_to prec emin (Zpos n # d)
+    (pairQ (let '(q, e, s) := quo_bits prec n d in round_mag prec emin q e s)).
+Proof.
+  intros Hp. pose proof (round_mag_quo_rounds prec emin n d 0 Hp) as H.
+  destruct (quo_bits prec n d) as [[q e] s]. rewrite Z.add_0_r in H.
+  refine (rounds_to_ext _ _ _ _ _ _ _ (Qeq_refl _) H). rewrite T_0. ring.
 Qed.
 
 (* ---- monotonicity: nearest rounding to a fixed set is monotone *)
@@ -329,14 +347,8 @@ Proof.
     { apply bitlen_gt; [lia|]. apply Z.le_trans with (2 := Hq). apply Z.pow_le_mono_r; lia. }
     rewrite (round_pos_overflow f mx neg a d (- k) Hok Hm (or_intror Hb)).
     assert (EV : ((a # d) * T (- k) == Zpos p # d)%Q).
-    { assert (Hd : (0 < inject_Z (Zpos d))%Q) by (apply (inject_Z_lt 0); lia).
-      apply (Qmult_inj_r _ _ (inject_Z (Zpos d) * T k)); [pose proof (T_pos k); intros Hc; nra|].
-      setoid_replace ((a # d) * T (- k) * (inject_Z (Z.pos d) * T k))%Q
-        with (((a # d) * inject_Z (Z.pos d)) * (T (- k) * T k))%Q by ring.
-      rewrite <- T_add, Qmake_mult. replace (- k + k) with 0 by lia. rewrite T_0.
-      setoid_replace ((Z.pos p # d) * (inject_Z (Z.pos d) * T k))%Q
-        with (((Z.pos p # d) * inject_Z (Z.pos d)) * T k)%Q by ring.
-      rewrite Qmake_mult. unfold a. rewrite inject_Z_mult, (T_Z k) by lia. ring. }
+    { pose proof (quo_bits_value (f_prec f) p d 0 Hp) as V. cbn zeta in V. fold k a in V.
+      rewrite Z.add_0_r, T_0 in V. rewrite V. ring. }
     rewrite EV. reflexivity. }
   destruct n as [|p|p]; cbn [round_rat].
   - split; [discriminate|]. intros H. exfalso. change (Qabs (0 # d)) with (0 # d)%Q in H.
